@@ -73,6 +73,11 @@ CLAIMED["C11"]=dict(
    text="Exploration: 60k (quick) / 1.5M (thorough) values over 55 types (scalars incl. boundary ints, NaN payloads, -0.0, NUL and multi-byte strings; Option/Result/Vec/tuple/BTreeMap nestings to depth 3; 7 derived structs incl. reordered fields and a newtype; 4 derived enums), 5-7 routes each; the 55x55 refusal matrix through two APIs is complete. Found and fixed: three De defects (unbounded recursion, tuples, unit). Three recorded known findings (Ser is not type directed; De<Result> by index; De of maps).",
    note="for types containing a constructor named in KF-C11-01/02/03 the affected serde route is matched against that finding (by route name + type feature); all other routes of those values are still enforced",
    ref="6 C11")
+CLAIMED["C08"]=dict(
+   technique="exhaustive enumeration + round-trip property-based testing: (a) every operator chain over a 12-operator fixity table pushed through parse/metadata/reparse_infix and compared with a declarative grouping rule incl. the conflict error; (b) proptest-generated programs printed in random legal concrete styles, parsed by gluon's parser and compared with the generated tree (canonical S-expressions), plus span invariants over the whole parsed tree",
+   text="Exploration: (a) complete: 77k chains (quick: <=4 operators over all 12, 5-6 over the 6 declared; thorough one longer); (b) 20k (quick) / 500k (thorough) programs x styles {explicit in, layout, redundant parentheses, line comments, blank lines, CRLF}; spans must be inside the source, on char boundaries, nested, ordered, and cover exactly the identifier / operator / field name. Found and fixed: the span of #Int+ style operators covered only '#'.",
+   note="the printer parenthesises operands of infix expressions, so precedence-driven grouping is decided by (a) only; block comments and doc comments are not generated in (b)",
+   ref="6 C08")
 NOT_YET = {}
 def main():
     props=[json.loads(l) for l in open('/verif/properties.jsonl')]
